@@ -56,7 +56,12 @@ def correspondence(ck, tier):
             ck.disagree("K.origin", case, f"com: implementation {com}, model {tuple(mcom)}")
         m0, m1 = int(rep[3 * k + 1].split()[1]), int(rep[3 * k + 2].split()[1])
         conv = quiet(find_origin, im, "convolution")
-        if not (conv[0] == m0 / 2 and conv[1] == m1 / 2):
+        # (an asymmetric profile may attain its largest autoconvolution value at two lags exactly — [1, 21, 40, 2] does; the
+        #  implementation normalises the projection first, so which of two *equal* values is "first" is decided by rounding there.
+        #  A symmetric profile has a unique maximum, Props/C13 `centre_is_unique_argmax`; exact ties are compared up to the tie.)
+        exact = [np.convolve(p_, p_) for p_ in (im.sum(axis=1).astype(np.int64), im.sum(axis=0).astype(np.int64))]
+        tied = [set(np.flatnonzero(e == e.max()) / 2) for e in exact]
+        if not ((conv[0] == m0 / 2 or (len(tied[0]) > 1 and conv[0] in tied[0])) and (conv[1] == m1 / 2 or (len(tied[1]) > 1 and conv[1] in tied[1]))):
             ck.disagree("K.origin", case, f"convolution: implementation {conv}, model {(m0 / 2, m1 / 2)}")
         for axes in AXES:
             ic = quiet(find_origin, im, "image_center", axes=axes)
